@@ -58,3 +58,44 @@ def first_case_text(path, case_id, start="CASE", end="END", idcol=1):
         if t and t[0] == end and keep:
             break
     return out
+
+
+def run_driver_sharded(c, name, casefile, what, extra_args=(), shards=12, end_marker="ENDS"):
+    """split a case file at case boundaries and run the driver on the pieces in parallel"""
+    import subprocess
+    lines = open(casefile, errors="replace").read().split("\n")
+    cases, cur = [], []
+    for l in lines:
+        cur.append(l)
+        if l.strip() == end_marker:
+            cases.append(cur); cur = []
+    if cur and any(x.strip() for x in cur):
+        cases.append(cur)
+    shards = max(1, min(shards, len(cases)))
+    procs = []
+    for i in range(shards):
+        p = casefile + ".shard%d" % i
+        with open(p, "w") as f:
+            for cs in cases[i::shards]:
+                f.write("\n".join(cs) + "\n")
+        procs.append((p, subprocess.Popen("ulimit -s unlimited 2>/dev/null; exec %s %s %s" % (
+            os.path.join(verif.VERIF, "ocaml", "bin", name), p, " ".join(extra_args)),
+            shell=True, stdout=subprocess.PIPE, stderr=subprocess.STDOUT, text=True)))
+    mism, viol, known, summ = [], [], [], collections.Counter()
+    for p, pr in procs:
+        try:
+            out, _ = pr.communicate(timeout=1500)
+        except subprocess.TimeoutExpired:
+            pr.kill(); out = "[timeout]"
+        m, v, s, other = verif.parse_model_output(out)
+        if pr.returncode != 0 or "cases" not in s:
+            c.broken.append("%s driver failed on %s (%s): %s" % (name, what, os.path.basename(p), out[-600:]))
+        mism += m; viol += v; known += [l for l in other if l.startswith("KNOWN")]
+        for k, val in s.items():
+            if isinstance(val, int):
+                summ[k] += val
+        try:
+            os.remove(p)
+        except OSError:
+            pass
+    return mism, viol, dict(summ), known
